@@ -1,5 +1,6 @@
 /-
-  ReadTOASTTable on encoded TOAST relations and ReassembleTOAST on the chunks it returns (used by Props/C08).
+  ReadTOASTTable on encoded TOAST relations (used by Props/C08): the chunk_data varlena, PostgreSQL's TOAST visibility
+  rule on encoded tuples / pages / files (toast.go:toastVisible, readTOASTTuples — fixes/toast/21), layouts.
 -/
 import PgVerif.Proofs.HeapFile
 import PgVerif.Proofs.ToastPtr
@@ -122,31 +123,199 @@ theorem collectM_rows (rows : List Row) (h : ∀ r ∈ rows, r.WF) :
     simp only [List.map_cons, collectM, chunkOf_row r (h r (by simp)), ok_bind,
       ih (fun x hx => h x (by simp [hx])), pure_eq_ok]
 
+/-! ### the TOAST visibility rule on encoded tuples, pages and files (fixes/toast/21) -/
+
+theorem mask9 (m : Nat) : (m &&& 0x0200 != 0) = m.testBit 9 := by
+  have := land_pow_ne_zero m 9; simpa using this
+
+/-- the Spec's rule on a spec tuple -/
+def tvis (t : Tuple) : Bool := Spec.Toast.toastVisible t.infomask t.xmin
+
+/-- toast.go:toastVisible reads t_infomask and t_xmin of an encoded tuple and decides as HeapTupleSatisfiesToast does -/
+theorem toastVisible_enc (t : Tuple) (h : t.WF) (hx : t.xmin < 2 ^ 32) :
+    Model.Toast.toastVisible (encTuple t) = .ok (tvis t) := by
+  obtain ⟨hc, h2, h1, hh, hb⟩ := h
+  have hlen : (encTuple t).length = 23 + t.mid.length + t.data.length := by
+    rw [encTuple_length]; simp [Tuple.len, hc]
+  have him : rd 2 ((encTuple t).drop 20) = t.infomask := by
+    have := rdAt_append' 2 t.infomask 20 (le 4 t.xmin ++ le 4 t.xmax ++ le 4 t.cid ++ t.ctid ++ le 2 t.infomask2)
+      ([UInt8.ofNat t.hoff] ++ t.mid ++ t.data) (by simp [hc]) (by simpa using h1)
+    simpa [rdAt, encTuple, List.append_assoc] using this
+  have hxm : rd 4 ((encTuple t).drop 0) = t.xmin := by
+    simp only [List.drop_zero, encTuple, List.append_assoc]
+    exact rd_le 4 t.xmin _ (by simpa using hx)
+  unfold Model.Toast.toastVisible
+  rw [uN_ok _ _ _ (by omega)]
+  simp only [ok_bind, him, mask8, mask9]
+  unfold tvis Spec.Toast.toastVisible
+  cases h8 : t.infomask.testBit 8
+  · cases h9 : t.infomask.testBit 9
+    · simp only [Bool.false_eq_true, if_false]
+      rw [uN_ok _ _ _ (by omega)]
+      simp only [ok_bind, hxm, pure_eq_ok, Bool.false_or, Bool.not_false, Bool.true_and]
+    · simp [pure_eq_ok]
+  · simp [pure_eq_ok]
+
+/-- the tuple (if any) a pointer contributes to the TOAST scan -/
+def lpToast (p : Page) (l : LP) : Option Tuple := (lpTuple p l).filter tvis
+
+theorem toastPageItem_enc (p : Page) (h : p.WF) (hx : ∀ s ∈ p.slots, s.2.xmin < 2 ^ 32) (l : LP) (hl : l ∈ p.lps) :
+    toastPageItem (encPage p) p.upper (decItem (lpRaw p l)) = .ok ((lpToast p l).map mtuple) := by
+  have hw := h.2.2.2.2.2.1 l hl
+  cases l with
+  | normal k =>
+    have hk : k < p.slots.length := hw
+    have hb := slot_bounds p h k hk
+    have hlp := tuple_len_pos (p.slots.getD k default).2
+    have hs := slot_slice p h k hk
+    have hg : (p.slots.getD k default) = p.slots[k] := by simp [List.getD, hk]
+    have hwf : (p.slots.getD k default).2.WF := by
+      rw [hg]; exact h.2.2.2.2.2.2.1 _ (List.getElem_mem hk)
+    have hxk : (p.slots.getD k default).2.xmin < 2 ^ 32 := by
+      rw [hg]; exact hx _ (List.getElem_mem hk)
+    have hres : (lpToast p (.normal k)).map mtuple =
+        (if tvis (p.slots.getD k default).2 then some (mtuple (p.slots.getD k default).2) else none) := by
+      simp only [lpToast, lpTuple, List.getElem?_eq_getElem hk, Option.map_some, hg, Option.filter]
+      split <;> rfl
+    rw [hres]
+    simp only [lpRaw]
+    generalize (p.slots.getD k default).2 = T at *
+    generalize p.slotOff k = O at *
+    rw [decItem_raw _ _ _ (by omega) (by omega) (by omega)]
+    unfold toastPageItem
+    have c1 : ((1 : Nat) != 1 || T.len == 0) = false := by
+      have : T.len ≠ 0 := by omega
+      simp [this]
+    have c2 : (decide (O < p.upper) || decide (O + T.len > 8192)) = false := by
+      have a : ¬ O < p.upper := by omega
+      have b : ¬ O + T.len > 8192 := by omega
+      simp [a, b]
+    simp only [c1, c2, Bool.false_eq_true, if_false, hs, ok_bind, parseHeapTuple_enc T hwf, toastVisible_enc T hwf hxk,
+      pure_eq_ok]
+  | other off flags len =>
+    obtain ⟨h1, h2, h3, h4⟩ := hw
+    simp only [lpRaw]
+    rw [decItem_raw _ _ _ h1 h3 h2]
+    unfold toastPageItem
+    have : (flags != 1) = true := by simp [h4]
+    simp [this, lpToast, lpTuple]
+
+/-- one page of readTOASTTuples on the encoding of a well-formed page: exactly the tuples behind NORMAL pointers that
+PostgreSQL's TOAST snapshot sees, in pointer order -/
+theorem toastPageTuples_enc (p : Page) (h : p.WF) (hx : ∀ s ∈ p.slots, s.2.xmin < 2 ^ 32) :
+    toastPageTuples (encPage p) = .ok ((p.normalTuples.filter tvis).map mtuple) := by
+  unfold toastPageTuples
+  rw [parseHeader_enc p h]
+  simp only [ok_bind, validHeader_enc p h, Bool.not_true, Bool.false_eq_true, if_false, parseItems_enc p h]
+  rw [collectM_map, collectM_map_ok _ (fun l => (lpToast p l).map mtuple) _ (fun l hl => toastPageItem_enc p h hx l hl),
+    normalTuples_eq]
+  congr 1
+  induction p.lps with
+  | nil => rfl
+  | cons l ls ih =>
+    rw [List.filterMap_cons, List.filterMap_cons]
+    have e : lpToast p l = (lpTuple p l).filter tvis := rfl
+    rw [e]
+    cases hl : lpTuple p l with
+    | none => simpa [Option.filter] using ih
+    | some t =>
+      cases ht : tvis t <;> simp [Option.filter, ht, ih]
+
+theorem toastPageTuples_zero : toastPageTuples (zeros 8192) = .ok [] := by
+  unfold toastPageTuples parseHeader
+  simp (disch := simp) only [uN_ok, drop_zeros, rd_zeros, ok_bind, pure_eq_ok]
+  rfl
+
+/-- every stored tuple of the block has a 32-bit t_xmin (what its 4 bytes can hold) -/
+def xminOK : Block → Prop
+  | .page p => ∀ s ∈ p.slots, s.2.xmin < 2 ^ 32
+  | .zero => True
+
+theorem toastBlock (b : Block) (h : b.WF) (hx : xminOK b) :
+    toastPageTuples (encBlock b) = .ok ((b.tuples.filter tvis).map mtuple) := by
+  cases b with
+  | page p => exact toastPageTuples_enc p h hx
+  | zero => exact toastPageTuples_zero
+
+theorem readTOASTTuplesFrom_succ (data : Bytes) (n off : Nat) :
+    readTOASTTuplesFrom data (n + 1) off =
+      if off + 8192 ≤ data.length then do
+        let pg ← slice data off (off + 8192)
+        let ts ← toastPageTuples pg
+        let rest ← readTOASTTuplesFrom data n (off + 8192)
+        pure (ts ++ rest)
+      else pure [] := rfl
+
+/-- reading beyond a prefix = reading the rest -/
+theorem readTOASTTuplesFrom_shift (pre b : Bytes) (n off : Nat) :
+    readTOASTTuplesFrom (pre ++ b) n (pre.length + off) = readTOASTTuplesFrom b n off := by
+  induction n generalizing off with
+  | zero => rfl
+  | succ n ih =>
+    simp only [readTOASTTuplesFrom_succ]
+    by_cases hc : off + 8192 ≤ b.length
+    · rw [if_pos (by simp; omega), if_pos hc]
+      rw [show pre.length + off + 8192 = pre.length + (off + 8192) by omega,
+        slice_append_shift pre b off (off + 8192) hc (by omega), ih (off + 8192)]
+    · rw [if_neg (by simp; omega), if_neg hc]
+
+theorem readTOASTTuples_cons (pg rest : Bytes) (h : pg.length = 8192) :
+    readTOASTTuples (pg ++ rest) =
+      (do let ts ← toastPageTuples pg
+          let r ← readTOASTTuples rest
+          pure (ts ++ r)) := by
+  unfold readTOASTTuples
+  have hl : (pg ++ rest).length / 8192 + 1 = (rest.length / 8192 + 1) + 1 := by simp [h]
+  rw [hl, readTOASTTuplesFrom_succ]
+  rw [if_pos (by simp [h])]
+  rw [slice_ok _ _ _ (by simp [h]) (by omega)]
+  have : ((pg ++ rest).take (0 + 8192)).drop 0 = pg := by simp [← h]
+  simp only [this, ok_bind]
+  have hs := readTOASTTuplesFrom_shift pg rest (rest.length / 8192 + 1) 0
+  simp only [h, Nat.add_zero] at hs
+  rw [show 0 + 8192 = 8192 by rfl, hs]
+
+theorem readTOASTTuples_short (tail : Bytes) (h : tail.length < 8192) : readTOASTTuples tail = .ok [] := by
+  unfold readTOASTTuples
+  have : tail.length / 8192 = 0 := by omega
+  rw [this, readTOASTTuplesFrom_succ, if_neg (by omega)]
+  rfl
+
+/-- the tuples of a heap file PostgreSQL's TOAST snapshot sees, in scan order -/
+def toastTuples (bs : List Block) : List Tuple := (bs.flatMap Block.tuples).filter tvis
+
+/-- readTOASTTuples on ANY well-formed heap file: exactly the TOAST-visible tuples behind NORMAL pointers, in scan order -/
+theorem readTOASTTuples_enc (bs : List Block) (tail : Bytes) (hb : ∀ b ∈ bs, b.WF) (hx : ∀ b ∈ bs, xminOK b)
+    (ht : tail.length < 8192) :
+    readTOASTTuples (encHeap bs tail) = .ok ((toastTuples bs).map mtuple) := by
+  induction bs with
+  | nil =>
+    simp only [encHeap, List.flatMap_nil, List.nil_append]
+    rw [readTOASTTuples_short tail ht]; rfl
+  | cons b bs ih =>
+    have hbw := hb b (by simp)
+    have := ih (fun x hx' => hb x (by simp [hx'])) (fun x hx' => hx x (by simp [hx']))
+    simp only [encHeap, List.flatMap_cons, List.append_assoc] at this ⊢
+    rw [readTOASTTuples_cons _ _ (encBlock_length b hbw), toastBlock b hbw (hx b (by simp)), this]
+    simp [toastTuples, pure_eq_ok]
+
 /-! ### ReadTOASTTable on any well-formed heap file -/
 
-/-- the data areas of the live tuples, in scan order -/
-def liveDatas (bs : List Block) : List Bytes :=
-  ((scanView bs).filter fun v => liveBits v.infomask).map (·.data)
+/-- the data areas of the tuples PostgreSQL's TOAST snapshot sees, in scan order -/
+def liveDatas (bs : List Block) : List Bytes := (toastTuples bs).map (·.data)
 
 theorem collectM_comp {α β γ} (f : β → M (Option γ)) (g : α → β) (xs : List α) :
     collectM (fun x => f (g x)) xs = collectM f (xs.map g) := (collectM_map f g xs).symm
 
-theorem readTOASTTable_heap (bs : List Block) (tail : Bytes) (hb : ∀ b ∈ bs, b.WF) (ht : tail.length < 8192) :
+theorem readTOASTTable_heap (bs : List Block) (tail : Bytes) (hb : ∀ b ∈ bs, b.WF) (hx : ∀ b ∈ bs, xminOK b)
+    (ht : tail.length < 8192) :
     readTOASTTable (encHeap bs tail) = collectM chunkOf (liveDatas bs) := by
-  have hs := scan_enc bs tail true hb ht
   unfold readTOASTTable
-  cases hr : readTuples (encHeap bs tail) true with
-  | error e => rw [hr] at hs; simp [Except.map] at hs
-  | ok es =>
-    rw [hr] at hs
-    simp only [Except.map, Except.ok.injEq] at hs
-    simp only [ok_bind]
-    rw [collectM_comp chunkOf (fun e : TupleEntry => e.tuple.data) es]
-    congr 1
-    have : es.map (fun e => e.tuple.data) = (es.map viewOf).map (·.data) := by
-      simp [List.map_map, Function.comp_def, viewOf]
-    rw [this, hs]
-    simp [liveDatas, scanViewVis, scanView]
+  rw [readTOASTTuples_enc bs tail hb hx ht]
+  simp only [ok_bind]
+  rw [collectM_comp chunkOf (fun t : HeapTuple => t.data)]
+  congr 1
+  simp [liveDatas, List.map_map, Function.comp_def, mtuple]
 
 /-! ### the pages of a layout -/
 
@@ -203,17 +372,23 @@ theorem toastPage_wf (es : List Entry) (hf : pageFits es) (he : ∀ e ∈ es, e.
     rw [this]
     omega
 
-theorem liveDatas_layout_from (lay : Layout) (off : Nat) :
-    ((scanViewFrom off (lay.map fun pg => Block.page (toastPage pg))).filter fun v => liveBits v.infomask).map (·.data)
-      = ((lay.flatten.filter (·.live)).map fun e => rowData e.row) := by
-  induction lay generalizing off with
-  | nil => rfl
-  | cons pg lay ih =>
-    simp only [List.map_cons, scanViewFrom, Block.tuples, toastPage_tuples, List.filter_append, List.map_append,
-      List.flatten_cons, ih (off + 8192)]
-    congr 1
-    simp only [List.map_map, List.filter_map, Function.comp_def]
-    rfl
+theorem xminOK_toastPage (es : List Entry) (he : ∀ e ∈ es, e.WF) : xminOK (Block.page (toastPage es)) := by
+  intro s hs
+  simp only [toastPage, List.mem_map] at hs
+  obtain ⟨e, hem, rfl⟩ := hs
+  exact (he e hem).2.2.2.1
+
+theorem tvis_entry (e : Entry) : tvis e.tuple = e.live := rfl
+
+theorem liveDatas_layout (lay : Layout) :
+    liveDatas (lay.map fun pg => Block.page (toastPage pg)) = ((lay.flatten.filter (·.live)).map fun e => rowData e.row) := by
+  have ht : (lay.map fun pg => Block.page (toastPage pg)).flatMap Block.tuples = lay.flatten.map Entry.tuple := by
+    induction lay with
+    | nil => rfl
+    | cons pg lay ih =>
+      simp only [List.map_cons, List.flatMap_cons, Block.tuples, toastPage_tuples, List.flatten_cons, List.map_append, ih]
+  simp only [liveDatas, toastTuples, ht, List.filter_map, List.map_map, Function.comp_def]
+  rfl
 
 theorem readTOASTTable_layout (lay : Layout) (h : lay.WF) :
     readTOASTTable (encToastRel lay) = .ok (lay.liveRows.map toChunk) := by
@@ -222,10 +397,12 @@ theorem readTOASTTable_layout (lay : Layout) (h : lay.WF) :
     intro b hb
     simp only [List.mem_map] at hb
     obtain ⟨pg, hpg, rfl⟩ := hb
-    exact toastPage_wf pg (h pg hpg).1 (h pg hpg).2) (by simp)]
-  have := liveDatas_layout_from lay 0
-  unfold liveDatas scanView
-  rw [this]
+    exact toastPage_wf pg (h pg hpg).1 (h pg hpg).2) (by
+    intro b hb
+    simp only [List.mem_map] at hb
+    obtain ⟨pg, hpg, rfl⟩ := hb
+    exact xminOK_toastPage pg (h pg hpg).2) (by simp)]
+  rw [liveDatas_layout lay]
   have e : (lay.flatten.filter (·.live)).map (fun e => rowData e.row) = lay.liveRows.map rowData := by
     simp [Layout.liveRows, List.map_map, Function.comp_def]
   rw [e]
